@@ -1,0 +1,36 @@
+//go:build verif
+
+package x86asm
+
+// The ASSUMED contract of the bundled x86-64 decoder (property C16).  Its body (a 900-line
+// interpreter of a 9 900-line generated table) is not verified deductively; the contract is
+// checked by a bounded run-time monitor and a differential test (see /verif/DESIGN.md, C16).
+// Every consumer (ParseIns, fixIns, fixBlock, checkJumpBetween, GetFuncSize) is proved against it.
+
+// x86_decode: decoding is a function of the bytes handed to the decoder.
+//@ uninterp func x86_decode(mem bytes, off uintptr, n int, mode int) Inst
+//@ uninterp func inst_string(i Inst) string
+
+//@ pure func is_short_branch_opcode(b byte) bool = b == 0x74 || b == 0x76 || b == 0x7F || b == 0xEB
+//@ pure func decoded_ok(i Inst, n int) bool = 1 <= i.Len && i.Len <= 15 && i.Len <= n && i.PCRelOff >= 0 && i.PCRelOff <= 15
+//@   | && (i.PCRelOff > 0 ==> (i.PCRel == 1 || i.PCRel == 2 || i.PCRel == 4 || i.PCRel == 8) && i.PCRelOff + i.PCRel <= i.Len)
+//@   | && (i.PCRel == 2 ==> i.PCRelOff >= 2)
+
+//@ trusted func Decode
+//@   props C16 C03
+//@   assigns nothing
+//@   ensures function_of_bytes: inst == x86_decode(contents(src), off(src), len(src), mode)
+//@   ensures contract: err == nil ==> decoded_ok(inst, len(src))
+//@   ensures short_branch_shape: err == nil && len(src) >= 1 && is_short_branch_opcode(src[0]) ==> inst.Len == 2 && inst.PCRelOff == 1 && inst.PCRel == 1
+//@   ensures rel16_has_prefix: err == nil && inst.PCRelOff > 0 && inst.PCRel == 2 ==> src[0] != 0
+
+//@ trusted func (i Inst) String
+//@   props C16
+//@   pure
+//@   ensures function_of_inst: result == inst_string(i)
+
+//@ uninterp func op_string(o Op) string
+//@ trusted func (op Op) String
+//@   props C16
+//@   pure
+//@   ensures function_of_op: result == op_string(op)
